@@ -11,14 +11,14 @@ pub fn prop() -> Prop {
     Prop {
         id: "C18",
         level: "exploration",
-        rule: "case = (hasher among the 12 instances; 2^1..2^11 leaves (2^13 thorough, Rescue hashers capped lower); index set: non-empty, duplicate-free, size 1..48 or full, shapes {random, sibling pairs, one subtree, all-left, extremes}; presentation order sorted / reversed / shuffled). Oracle: root = recursive pairwise merge computed by the harness; prove(i) = reference sibling path; prove_batch/verify_batch/get_root agree with the root for every order; from_single_proofs == prove_batch (compared through to_bytes); into_openings == [prove(i)]. Non-trivial = >= 4 leaves and >= 2 indexes; distinct = hash of (hasher, leaf seed, size, index list).",
+        rule: "case = (hasher among the 12 instances; 2^1..2^11 leaves (2^13 thorough, Rescue hashers capped lower); index set: non-empty, duplicate-free, size 1..48 or full, shapes {random, sibling pairs, one subtree, all-left, extremes}; presentation order sorted / reversed / shuffled). Oracle: root = recursive pairwise merge computed by the harness; prove(i) = reference sibling path; prove_batch/verify_batch/get_root agree with the root for every order; from_single_proofs == prove_batch (compared through to_bytes); into_openings == [prove(i)]. Sub-check deep_virtual: one or two openings of a VIRTUAL tree of depth 1..63 (consistent hand-made authentication paths; such a tree cannot be built, but the proof types carry any depth and are read from untrusted bytes): root by folding the paths, from_single_proofs -> get_root = that root, verify_batch accepts, into_openings returns the paths. Non-trivial = >= 4 leaves and >= 2 indexes; distinct = hash of (hasher, leaf seed, size, index list).",
         assumptions: vec![
             "H::merge itself is the subject of C15/C16; here it is the building block of the reference recursion",
             "BatchMerkleProof values are compared through to_bytes() because PartialEq/Clone on BatchMerkleProof<H> require the same bounds on H, which Sha3_256 does not provide",
             "the concurrent builder (leaves > 1024, feature `concurrent`) is compared with the serial one by ./check C06",
         ],
-        subs: vec![Sub::gen("trees", trees, 160, 12_000, 400_000)],
-        required: vec!["unsorted_order", "n_gt_1024", "n_2", "full_index_set", "sibling_pairs", "hasher:Rp62_248", "hasher:Sha3_256<f64>", "hasher:Blake3_192<f128>"],
+        subs: vec![Sub::gen("trees", trees, 160, 12_000, 400_000), Sub::gen("deep_virtual", deep_virtual, 160, 20_000, 600_000)],
+        required: vec!["deep:depth_ge_31", "deep:two_openings", "unsorted_order", "n_gt_1024", "n_2", "full_index_set", "sibling_pairs", "hasher:Rp62_248", "hasher:Sha3_256<f64>", "hasher:Blake3_192<f128>"],
         required_thorough: vec![],
     }
 }
@@ -204,5 +204,123 @@ fn run<X: HS>(s: &mut Src, rec: &mut Rec) -> CaseResult {
         Err(pn) => return Err(Fail::new(pn.key(), format!("into_openings panicked: {}", pn.message))),
     }
     rec.weight = (set.len() + 1) as u64;
+    Ok(())
+}
+
+
+// OPENINGS OF A VIRTUAL DEEP TREE
+// ================================================================================================
+
+pub fn deep_virtual(s: &mut Src, rec: &mut Rec) -> CaseResult {
+    let idx = s.below(NUM_HASHERS);
+    with_hasher!(idx, X, run_deep::<X>(s, rec))
+}
+
+fn fold<X: HS>(leaf: <X::H as Hasher>::Digest, path: &[<X::H as Hasher>::Digest], mut index: u64) -> Vec<<X::H as Hasher>::Digest> {
+    // nodes on the way up: [leaf, level 1, ..., root]
+    let mut out = vec![leaf];
+    let mut node = leaf;
+    for sib in path {
+        node = if index & 1 == 0 { <X::H as Hasher>::merge(&[node, *sib]) } else { <X::H as Hasher>::merge(&[*sib, node]) };
+        out.push(node);
+        index >>= 1;
+    }
+    out
+}
+
+fn run_deep<X: HS>(s: &mut Src, rec: &mut Rec) -> CaseResult {
+    let name = X::NAME;
+    let depth = match s.below(6) {
+        0 => s.pick_copy(&[30u32, 31, 32, 33, 63]),
+        1 => s.range(31, 63) as u32,
+        _ => s.range(1, 63) as u32,
+    };
+    rec.class_if(depth >= 31, "deep:depth_ge_31");
+    let mut mix = vfield::Mix(s.u64());
+    let mut digest = |s: &mut Src| -> <X::H as Hasher>::Digest { <X::H as Hasher>::hash(&[mix.0 as u8, s.u8(), (mix.int::<<X as HS>::S>() & 0xff) as u8, (mix.int::<<X as HS>::S>() >> 8) as u8, depth as u8]) };
+    let max_index = if depth >= 63 { (1u64 << 63) - 1 } else { (1u64 << depth) - 1 };
+    let i = match s.below(4) {
+        0 => 0,
+        1 => max_index,
+        _ => s.u64() & max_index,
+    };
+    let two = depth >= 2 && s.bool();
+    let leaf_i = digest(s);
+    let mut path_i: Vec<_> = (0..depth).map(|_| digest(s)).collect();
+    let mut singles = vec![];
+    let mut set = vec![];
+    let root;
+    if two {
+        rec.class("deep:two_openings");
+        // a second index whose path joins the first one at level b (its highest differing bit)
+        let b = s.below(depth as u64) as u32;
+        let low = if b == 0 { 0 } else { s.u64() & ((1u64 << b) - 1) };
+        let j = ((i >> (b + 1)) << (b + 1)) | (((i >> b) & 1) ^ 1) << b | low;
+        let leaf_j = digest(s);
+        let mut path_j: Vec<_> = (0..depth).map(|_| digest(s)).collect();
+        // below the junction the paths are independent; at the junction each one's sibling is the other's
+        // subtree node; above it they coincide
+        let nodes_j = fold::<X>(leaf_j, &path_j[..b as usize], j);
+        let nodes_i = fold::<X>(leaf_i, &path_i[..b as usize], i);
+        path_i[b as usize] = nodes_j[b as usize];
+        path_j[b as usize] = nodes_i[b as usize];
+        for l in (b as usize + 1)..depth as usize {
+            path_j[l] = path_i[l];
+        }
+        let ri = *fold::<X>(leaf_i, &path_i, i).last().unwrap();
+        let rj = *fold::<X>(leaf_j, &path_j, j).last().unwrap();
+        ensure!(ri == rj, "harness-deep-paths", "hand-made paths do not meet in one root");
+        root = ri;
+        // sorted and unsorted presentation
+        if s.bool() == (i < j) {
+            singles.push((leaf_i, path_i.clone()));
+            singles.push((leaf_j, path_j.clone()));
+            set.push(i as usize);
+            set.push(j as usize);
+        } else {
+            singles.push((leaf_j, path_j.clone()));
+            singles.push((leaf_i, path_i.clone()));
+            set.push(j as usize);
+            set.push(i as usize);
+        }
+    } else {
+        root = *fold::<X>(leaf_i, &path_i, i).last().unwrap();
+        singles.push((leaf_i, path_i.clone()));
+        set.push(i as usize);
+    }
+    rec.nontrivial = depth >= 2;
+    rec.set_fp(&(name, depth, &set, s.consumed()));
+    rec.describe(|| json!({"hasher": name, "depth": depth, "indexes": set}));
+    let ctx = format!("{name}, virtual tree of depth {depth}, indexes {set:?}");
+    let leaves: Vec<_> = singles.iter().map(|x| x.0).collect();
+    // single openings verify
+    for (k, (leaf, path)) in singles.iter().enumerate() {
+        let r = catch(|| MerkleTree::<X::H>::verify(root, set[k], *leaf, path));
+        match r {
+            Ok(Ok(())) => {},
+            Ok(Err(e)) => return Err(Fail::new(format!("deep-single-opening-rejected:{name}"), format!("a consistent single opening is rejected: {e:?} ({ctx})"))),
+            Err(pn) => return Err(Fail::new(pn.key(), format!("MerkleTree::verify panicked: {} ({ctx})", pn.message))),
+        }
+    }
+    let batch = match catch(|| BatchMerkleProof::<X::H>::from_single_proofs(&singles, &set)) {
+        Ok(b) => b,
+        Err(pn) => return Err(Fail::new(pn.key(), format!("from_single_proofs panicked: {} ({ctx})", pn.message))),
+    };
+    ensure!(batch.depth as u32 == depth, "deep-batch-depth", "from_single_proofs produced depth {} ({ctx})", batch.depth);
+    match catch(|| batch.get_root(&set, &leaves)) {
+        Ok(Ok(r)) => ensure!(r == root, format!("deep-get_root-wrong:{name}"), "get_root of a consistent batch opening is not the root obtained by folding the paths ({ctx})"),
+        Ok(Err(e)) => return Err(Fail::new(format!("deep-get_root-rejects:{name}"), format!("get_root rejects a consistent batch opening: {e:?} ({ctx})"))),
+        Err(pn) => return Err(Fail::new(pn.key(), format!("get_root panicked: {} ({ctx})", pn.message))),
+    }
+    match catch(|| MerkleTree::<X::H>::verify_batch(&root, &set, &leaves, &batch)) {
+        Ok(Ok(())) => {},
+        Ok(Err(e)) => return Err(Fail::new(format!("deep-verify_batch-rejects:{name}"), format!("verify_batch rejects a consistent batch opening: {e:?} ({ctx})"))),
+        Err(pn) => return Err(Fail::new(pn.key(), format!("verify_batch panicked: {} ({ctx})", pn.message))),
+    }
+    match catch(|| copy_proof::<X>(&batch).into_openings(&leaves, &set)) {
+        Ok(Ok(openings)) => ensure!(openings == singles, format!("deep-into_openings-differs:{name}"), "into_openings does not return the single openings the batch proof was assembled from ({ctx})"),
+        Ok(Err(e)) => return Err(Fail::new(format!("deep-into_openings-rejects:{name}"), format!("into_openings rejects a consistent batch opening: {e:?} ({ctx})"))),
+        Err(pn) => return Err(Fail::new(pn.key(), format!("into_openings panicked: {} ({ctx})", pn.message))),
+    }
     Ok(())
 }
